@@ -493,6 +493,48 @@ int main(int argc, char **argv) {
             }
         }
     }
+    /* special positions: arrays of normal values with exactly ONE special value (and with exactly two), at every index
+     * of arrays spanning one to three 128-element blocks - the special-value bitmap then has a single set bit at every
+     * possible byte / word / block position, which a word-at-a-time scan of that bitmap must not overlook */
+    if (vh_section_begin("special-positions")) {
+        static double arr[1300];
+        static const size_t NS[] = {64, 127, 128, 129, 192, 256, 300, 384, 1024};
+        const double SP[6] = {0.0, -0.0, u2d(0x7FF8000000000123ULL), -INFINITY, mk(0, 0, 0x8000000000001ULL), INFINITY};
+        for (size_t ni = 0; ni < sizeof NS / sizeof *NS; ni++) {
+            size_t n = NS[ni];
+            if (!vh_thorough && n > 300) {
+                continue;
+            }
+            for (size_t pos = 0; pos < n; pos++) {
+                if (!vh_case()) {
+                    continue;
+                }
+                for (int two = 0; two < 2; two++) {
+                    for (size_t i = 0; i < n; i++) {
+                        uint64_t mant = (i * 0x9E3779B97F4A7C15ULL + ni) & 0xFFFFFFFFFFFFFULL;
+                        arr[i] = mk((int)(i & 1), 1000 + (int)((i * 7 + ni) % 40), mant);
+                    }
+                    arr[pos] = SP[(pos + ni) % 6];
+                    size_t pos2 = (pos + 64 + (pos % 3) * 8) % n;
+                    if (two) {
+                        arr[pos2] = SP[(pos + ni + 3) % 6];
+                    }
+                    for (int pi = 0; pi < 4; pi++) {
+                        for (int mode = 0; mode < 3; mode++) {
+                            if (two && (pi + mode) % 2) {
+                                continue;
+                            }
+                            snprintf(desc, sizeof desc, "array of %zu normal values with one special value at index %zu%s, precision %s mode %s", n, pos, two ? " and one more 64+ places on" : "", PN[pi], MN[mode]);
+                            run_case(arr, n, pi, mode, 0);
+                        }
+                    }
+                }
+                char ck[64];
+                snprintf(ck, sizeof ck, "special-at/n%zu/idx%%128=%zu-%zu", n, (pos % 128) / 16 * 16, (pos % 128) / 16 * 16 + 15);
+                vh_class(ck, "n=%zu pos=%zu", n, pos);
+            }
+        }
+    }
     /* giant (only where VERIF_GIANT is set: thorough tier, pinned build): more than 2^32 bits of packed mantissas in one
      * array - FULL precision needs 82,595,525 normal values */
     if (getenv("VERIF_GIANT") && vh_section_begin("giant") && vh_case()) {
